@@ -496,7 +496,8 @@ impl Engine for C12 {
             }
             for lo in &obs.lookups {
                 let expect = ref_lookup(&boc, today, pt, lo.date);
-                let faulted = obs.requests[lo.req_from.min(obs.requests.len())..lo.req_to.min(obs.requests.len())].iter().any(|q| q.fault.is_some());
+                // (a failed download may also fail the run's later look-ups: an implementation need not retry)
+                let faulted = obs.requests[..lo.req_to.min(obs.requests.len())].iter().any(|q| q.fault.is_some());
                 digest = fnv64_add(digest, show_answer(&lo.result).as_bytes());
                 match (&expect, &lo.result) {
                     (RefAnswer::Rate { date, .. }, Ok((gd, gr))) => {
@@ -517,7 +518,7 @@ impl Engine for C12 {
                         if faulted {
                             st.bump("probe.degraded_lookup_failed_on_fault");
                         } else {
-                            push(Violation { kind: "error_where_rate_exists".into(), signature: "error although a rate exists and no network fault fired during the look-up".into(), detail: format!("{}\nlook-up of {}: reference model says rate of {} (look-back {}), code failed: {}", ctx, lo.date, date, depth, msg.lines().next().unwrap_or("")) }, &mut violations);
+                            push(Violation { kind: "error_where_rate_exists".into(), signature: "error although a rate exists and no network fault had fired in the run".into(), detail: format!("{}\nlook-up of {}: reference model says rate of {} (look-back {}), code failed: {}", ctx, lo.date, date, depth, msg.lines().next().unwrap_or("")) }, &mut violations);
                         }
                     }
                 }
